@@ -88,6 +88,13 @@ type hpScenario struct {
 	NoHosts        bool       `json:"no_hosts,omitempty"`        // cluster without hosts
 	AllUnhealthy   bool       `json:"all_unhealthy,omitempty"`
 	Filters        []hpFilter `json:"filters,omitempty"`
+	// extra JSON merged into the route's "route" action (request_headers_to_add, …) and a direct response
+	RouteExtra     map[string]interface{} `json:"route_extra,omitempty"`
+	DirectStatus   int                    `json:"direct_status,omitempty"`
+	// the host that served the first attempt is marked unhealthy (active health check failed) just before
+	// the peer acts on that attempt: a retry that re-runs host selection must avoid it
+	EjectFirstHost bool                   `json:"eject_first_host,omitempty"`
+	DirectBody     string                 `json:"direct_body,omitempty"`
 	Bound          int        `json:"bound"`
 	Choices        []int      `json:"choices,omitempty"`
 }
@@ -110,6 +117,7 @@ type hpFrame struct {
 	Heartbeat bool
 	Raw       int
 	Seq       uint64 // global write sequence number of the Write call that completed the frame
+	AtMs      int64  // virtual time (ms) of that Write call
 	Headers   map[string]string
 }
 
@@ -200,15 +208,22 @@ func hpRouterConfig(sc *hpScenario) *v2.RouterConfiguration {
 		}
 		action["retry_policy"] = rp
 	}
+	for k, v := range sc.RouteExtra {
+		action[k] = v
+	}
+	routerEntry := map[string]interface{}{
+		"match": map[string]interface{}{"headers": []interface{}{map[string]interface{}{"name": "service", "value": "svc"}}},
+		"route": action,
+	}
+	if sc.DirectStatus != 0 {
+		routerEntry["direct_response"] = map[string]interface{}{"status": sc.DirectStatus, "body": sc.DirectBody}
+	}
 	cfg := map[string]interface{}{
 		"router_config_name": hpRouterName,
 		"virtual_hosts": []interface{}{map[string]interface{}{
 			"name":    "vh",
 			"domains": []string{"*"},
-			"routers": []interface{}{map[string]interface{}{
-				"match": map[string]interface{}{"headers": []interface{}{map[string]interface{}{"name": "service", "value": "svc"}}},
-				"route": action,
-			}},
+			"routers": []interface{}{routerEntry},
 		}},
 	}
 	b, _ := stdjson.Marshal(cfg)
@@ -364,6 +379,18 @@ func hpSeqAt(c *vfake.Conn, end int) uint64 {
 	return 0
 }
 
+// hpTimeAt is hpSeqAt for the virtual time (ms) of the write.
+func hpTimeAt(c *vfake.Conn, end int) int64 {
+	n := 0
+	for i, w := range c.Writes {
+		n += len(w)
+		if n >= end {
+			return int64(c.WriteAt[i] / 1e6)
+		}
+	}
+	return -1
+}
+
 // ---------------------------------------------------------------------------
 // running one execution of a scenario
 
@@ -484,6 +511,7 @@ func hpBody(sc *hpScenario, obs *hpObs) {
 	for i := range frames {
 		end += frames[i].Raw
 		frames[i].Seq = hpSeqAt(down, end)
+		frames[i].AtMs = hpTimeAt(down, end)
 	}
 	obs.DownFrames = frames
 	if garbage == "" && n != len(down.Written()) {
@@ -538,6 +566,7 @@ func (h *hpRun) parseUp(u *hpUpConn) {
 	for _, f := range frames {
 		u.parsed += f.Raw
 		f.Seq = hpSeqAt(u.Conn, u.parsed)
+		f.AtMs = hpTimeAt(u.Conn, u.parsed)
 		if f.IsRequest && !f.Heartbeat {
 			u.Requests = append(u.Requests, f)
 			h.obs.Attempts[f.Token]++
@@ -648,6 +677,9 @@ func (h *hpRun) onUpstreamConn(c *vfake.Conn) {
 					k := h.attemptOf(u, i)
 					act = h.scriptFor(fr.Token, k)
 					if fr.Oneway || act == upSilent {
+						if h.sc.EjectFirstHost && k == 0 {
+							*cluster.GetHealthFlagPointer(hpHostAddr(u.Host)) |= uint64(api.FAILED_ACTIVE_HC)
+						}
 						u.done[i] = true // nothing to do for this request, ever
 						continue
 					}
@@ -661,9 +693,16 @@ func (h *hpRun) onUpstreamConn(c *vfake.Conn) {
 			})
 			u.done[pick] = true
 			h.logf("peer%d(host%d): request id=%d token=%s -> %s", idx, u.Host, fr.ID, fr.Token, act)
+			if h.sc.EjectFirstHost && h.attemptOf(u, pick) == 0 {
+				p := cluster.GetHealthFlagPointer(hpHostAddr(u.Host))
+				*p |= uint64(api.FAILED_ACTIVE_HC)
+			}
 			switch act {
 			case upReply200, upLateOK:
 				c.InjectRead(hpBoltResponse(fr.ID, bolt.ResponseStatusSuccess, fr.Token, true))
+			case "reply-ok+k1":
+				b := hpEncode(bolt.NewRpcResponse(fr.ID, bolt.ResponseStatusSuccess, hpHeader(map[string]string{"token": fr.Token, "k1": "old"}), buffer.NewIoBufferString("resp-of-"+fr.Token)))
+				c.InjectRead(b)
 			case upReplyDup:
 				c.InjectRead(hpBoltResponse(fr.ID, bolt.ResponseStatusSuccess, fr.Token, true))
 				c.InjectRead(hpBoltResponse(fr.ID, bolt.ResponseStatusSuccess, fr.Token, true))
